@@ -320,6 +320,21 @@ func (e *Engine) nextReplay(kind, tag string) *InputRec {
 	return r
 }
 
+// nextReplayEnv: in concrete mode an "env" choice is taken from the recording when the next
+// record is one; vectors recorded natively have none, then alternative 0 is used.
+func (e *Engine) nextReplayEnv(tag string) *InputRec {
+	p := e.path
+	if p.replayIn == nil {
+		return nil
+	}
+	if p.replayPos < len(p.replayIn) && p.replayIn[p.replayPos].Kind == "env" {
+		r := &p.replayIn[p.replayPos]
+		p.replayPos++
+		return r
+	}
+	return &InputRec{Kind: "env", Tag: tag, N: 0}
+}
+
 func (e *Engine) symScalar(kind, tag string, w uint8) *Term {
 	if r := e.nextReplay(kind, tag); r != nil {
 		t := e.tt.Const(w, r.Vals[0])
@@ -377,6 +392,19 @@ func registerHarnessIntrinsics() {
 				k = e.Choose(n)
 			}
 			e.path.inputs = append(e.path.inputs, InputRec{Kind: "choice", Tag: tag, N: k})
+			return e.tt.Const(64, uint64(k))
+		},
+		// vEnvChoice: a nondeterministic choice of an environment model that only exists in the
+		// engine (replacement functions); recorded as kind "env", which the native runtime skips.
+		"vEnvChoice": func(e *Engine, c *frame, f *ssa.Function, a []Value) Value {
+			tag, n := strArg(e, a[0]), intArg(e, a[1])
+			var k int
+			if r := e.nextReplayEnv(tag); r != nil {
+				k = r.N
+			} else {
+				k = e.Choose(n)
+			}
+			e.path.inputs = append(e.path.inputs, InputRec{Kind: "env", Tag: tag, N: k})
 			return e.tt.Const(64, uint64(k))
 		},
 		"vBool": func(e *Engine, c *frame, f *ssa.Function, a []Value) Value {
